@@ -354,6 +354,9 @@ func (eng *Engine) verifyFunc(u *FuncUnit) (rep *FuncReport) {
 		for _, nw := range u.C.NoWrite {
 			fv.checkNoWrite(u, nw)
 		}
+		for _, oh := range u.C.OnlyHere {
+			fv.checkOnlyHere(u, oh)
+		}
 	}
 	for _, uc := range u.unstatable {
 		fv.obls = append(fv.obls, &Obligation{Name: u.Name() + "#" + uc.label + "#scope", Kind: "scope", Func: u.Name(), Pos: fv.posStr(u.Decl.Pos()),
@@ -916,6 +919,76 @@ func (eng *Engine) discharge(fv *FV) {
 func isNilNode(n ast.Node) bool {
 	defer func() { recover() }()
 	return n == nil || !n.Pos().IsValid() && false
+}
+
+// checkOnlyHere discharges an `onlyhere a.b.M` clause syntactically: in the
+// function's package (all files, test files excluded by the loader) every call
+// whose callee expression ends with the selector chain a.b.M is inside a
+// function that carries the same clause. It is an ownership condition on a
+// data structure: only the functions whose contracts speak about the writes
+// may write it. A function literal counts for the declaration it is in; a
+// call outside any function declaration (package initializer) is a violation.
+func (fv *FV) checkOnlyHere(u *FuncUnit, suffix string) {
+	o := &Obligation{Name: u.Name() + "#onlyhere:" + suffix, Kind: "frame", Func: u.Name(), Pos: fv.posStr(u.Decl.Pos()),
+		Desc: fmt.Sprintf("calls of %s occur only in functions whose contract allows them", suffix), Expect: "unsat", Status: "unsat", Solver: "syntactic", preset: true}
+	allowed := map[string]bool{}
+	if u.Spec != nil {
+		for key, c := range u.Spec.Contracts {
+			for _, s := range c.OnlyHere {
+				if s == suffix {
+					allowed[key] = true
+				}
+			}
+		}
+	}
+	allowed[u.Key()] = true
+	for _, f := range u.Pkg.Syntax {
+		for _, d := range f.Decls {
+			fd, ok := d.(*ast.FuncDecl)
+			var body ast.Node = d
+			key := ""
+			if ok {
+				if fd.Body == nil {
+					continue
+				}
+				body = fd.Body
+				key = fd.Name.Name
+				if fd.Recv != nil && len(fd.Recv.List) == 1 {
+					t := fd.Recv.List[0].Type
+					if st, isStar := t.(*ast.StarExpr); isStar {
+						t = st.X
+					}
+					if ix, isIx := t.(*ast.IndexExpr); isIx {
+						t = ix.X
+					}
+					if id, isId := t.(*ast.Ident); isId {
+						key = id.Name + "." + fd.Name.Name
+					}
+				}
+			}
+			if ok && allowed[key] {
+				continue
+			}
+			ast.Inspect(body, func(n ast.Node) bool {
+				call, isCall := n.(*ast.CallExpr)
+				if !isCall || o.Status == "sat" {
+					return o.Status != "sat"
+				}
+				txt := types.ExprString(call.Fun)
+				if txt == suffix || strings.HasSuffix(txt, "."+suffix) {
+					o.Status = "sat"
+					o.Pos = fv.posStr(call.Pos())
+					where := key
+					if where == "" {
+						where = "a package-level initializer"
+					}
+					o.Output = fmt.Sprintf("%s is called in %s at %s, which no contract allows", suffix, where, fv.posStr(call.Pos()))
+				}
+				return true
+			})
+		}
+	}
+	fv.obls = append(fv.obls, o)
 }
 
 // checkNoWrite discharges a `nowrite T.f` clause syntactically: no assignment,
